@@ -7,7 +7,7 @@
    MISMATCH kinds:
      model  impl vs model of the code (class, error multiset, docs); `shape` when the real forest violates the invariant
      spec   a CONTRACT line of the harness (panic / timeout / crash / unlocated error / rendering panics)
-   usage: c09_runner <flags: 7 chars 0/1 = escape peek choice unroll extras lr tag> [lrskip]
+   usage: c09_runner <flags: 8 chars 0/1 = escape peek choice unroll extras lr tag insens> [lrskip]
    `lrskip`: left-recursion errors are not compared (the implementation's check_expr is being repaired elsewhere: C06). *)
 open Front_model
 open Runner_common
@@ -116,7 +116,7 @@ let loc_s = function LPos p -> Printf.sprintf "P%d" (n2i p) | LSpan (a, b) -> Pr
 
 let flags_of (s : string) : flags =
   let b i = String.length s > i && s.[i] = '1' in
-  { extras = b 4; fix_escape = b 0; fix_peek = b 1; fix_choice = b 2; fix_unroll = b 3; fix_lr = b 5; fix_tag = b 6 }
+  { extras = b 4; fix_escape = b 0; fix_peek = b 1; fix_choice = b 2; fix_unroll = b 3; fix_lr = b 5; fix_tag = b 6; fix_insens = b 7 }
 
 let builtins : str list ref = ref []
 let cases = ref 0 and modelled = ref 0 and parse_failed = ref 0 and skipped_long = ref 0 and shape_checked = ref 0
@@ -124,7 +124,7 @@ let max_model_len = 60000
 let slowest = ref 0.0 and slowest_case = ref ""
 
 let () =
-  let fl = flags_of (if Array.length Sys.argv > 1 then Sys.argv.(1) else "0000000") in
+  let fl = flags_of (if Array.length Sys.argv > 1 then Sys.argv.(1) else "00000000") in
   let lrskip = Array.length Sys.argv > 2 && Sys.argv.(2) = "lrskip" in
   let keep_lr (k, _) = not (lrskip && k = "left-recursion") in
   read_lines (fun line ->
